@@ -139,7 +139,7 @@ Print Assumptions C14_partial_coarse_fragment.
 From CGV Require Import Reader.ReaderImpl Reader.Grammar Reader.Lin Reader.ReaderCheck
      Resolve.GraphOps Resolve.Pipeline Resolve.CopyProofs
      Frag.NDict Frag.StripImpl Frag.FragText Hydro.Hydrogens Hydro.Fragments
-     Hydro.SquashDefs Reader.ReaderUnit Dialect.BaseAnnotUnits Dialect.MachineAnnot Dialect.BaseAnnot Dialect.FragAnnot Dialect.CopyAnnot Dialect.TemplateAnnot.
+     Hydro.SquashDefs Hydro.HydroDefs Resolve.PipelineFull Compose.CutModel Compose.CutHydrogens Reader.ReaderUnit Dialect.ReturnedAnnot Dialect.BaseAnnotUnits Dialect.MachineAnnot Dialect.BaseAnnot Dialect.FragAnnot Dialect.CopyAnnot Dialect.TemplateAnnot.
 Open Scope Z_scope.
 
 (** ---- base graph ---- *)
@@ -252,6 +252,53 @@ Theorem C14_hydrogens_do_not_overwrite : forall copy_attrs g k n anchor rest m,
     exists n', gfind k g' = Some n' /\ forall attr v, aget attr (na n) = Some v -> aget attr (na n') = Some v.
 Proof. exact inheritance_does_not_overwrite. Qed.
 
+(** ---- END TO END to the RETURNED all-atom graph (over the Compose component's cut model, imported) ----
+    A cut C of a molecule into named parts with its templates [fd] and base graph [B] (Compose/CutModel.v); the template
+    atom i of fragment `name` is node i of [T].  For EVERY part (p, name, xs) - every coarse node that uses the fragment -
+    and every atom x = xs[i], the node of the returned graph that stems from x (key: sorting permutation of phi C x)
+    has, under every key the steps do not write, EXACTLY the template atom's value: every copy carries the annotation
+    unchanged, and an atom whose template atom lacks a key does not gain it.  Stages: resolve_disconnected, bonding_step,
+    squash (identity: a cut has no `!` bond), rebuild_h_atoms with the identity aromaticity transcript (Hydro's contract
+    Hydrogens.transcript_contract itself demands that every attribute but `aromatic` is left alone and the model raises
+    otherwise), sort_nodes_by_attr; then annotate_ez_isomers_cgsmiles, annotate_fragments, set_atom_names (fo_mol) *)
+Theorem C14_annotation_reaches_returned_graph : forall C, wf_cut C -> forall fd, templates_ok C fd -> wf_dict fd ->
+  forall B, is_base C B ->
+  (forall x, In x (flat C) ->
+     (exists e, aget (S "element") (payload C x) = Some e) /\ (exists q, aget (S "charge") (payload C x) = Some q) /\
+     (exists h, aget (S "hcount") (payload C x) = Some (VInt h)) /\ Hydrogens.is_H (payload C x) = false) ->
+  (forall b, In b (c_bonds C) -> numeric (cb_ord b)) ->
+  exists m1 fg1 m2 fg2,
+    resolve_disconnected fd B = Ok (m1, fg1) /\ bonding_step true true B m1 fg1 = Ok (m2, fg2) /\
+    Squash.squash_atoms m2 = Ok m2 /\
+    forall g4 g5, Hydrogens.rebuild_h_atoms_default m2 (Some m2) = Ok g4 -> sort_nodes_by_attr g4 = Ok g5 ->
+    exists m, sort_mapping g4 = Ok m /\ SortGraphProofs.inj_on (map_get m) (node_keys g4) /\
+      forall p name xs T i x n key,
+        nth_error (c_parts C) p = Some (name, xs) -> fd_get name fd = Some T ->
+        nth_error xs i = Some x -> gfind (Z.of_nat i) T = Some n -> carried_key key ->
+        In (phi C x) (node_keys g4) /\ node_get g5 (map_get m (phi C x)) key = aget key (na n).
+Proof. exact annotation_reaches_returned_graph. Qed.
+Theorem C14_annotation_reaches_returned_graph_full : forall C, wf_cut C -> forall fd, templates_ok C fd -> wf_dict fd ->
+  forall B, is_base C B ->
+  (forall x, In x (flat C) ->
+     (exists e, aget (S "element") (payload C x) = Some e) /\ (exists q, aget (S "charge") (payload C x) = Some q) /\
+     (exists h, aget (S "hcount") (payload C x) = Some (VInt h)) /\ Hydrogens.is_H (payload C x) = false) ->
+  (forall b, In b (c_bonds C) -> numeric (cb_ord b)) ->
+  forall prev car fo, meta_of prev = B -> resolve_step_full true true fd prev car = Ok fo -> car = Some (fo_m3 fo) ->
+  exists m, sort_mapping (fo_m4 fo) = Ok m /\ SortGraphProofs.inj_on (map_get m) (node_keys (fo_m4 fo)) /\
+    forall p name xs T i x n key,
+      nth_error (c_parts C) p = Some (name, xs) -> fd_get name fd = Some T ->
+      nth_error xs i = Some x -> gfind (Z.of_nat i) T = Some n -> returned_key key ->
+      node_get (fo_mol fo) (map_get m (phi C x)) key = aget key (na n).
+Proof. exact annotation_reaches_returned_graph_full. Qed.
+(** the same at the end of the instantiation loop, for coarse and all-atom levels alike *)
+Theorem C14_disconnected_copy_exact : forall C, wf_cut C -> forall fd, templates_ok C fd -> wf_dict fd ->
+  forall B, is_base C B -> forall m1 fg1 p name xs T i x n key,
+  resolve_disconnected fd B = Ok (m1, fg1) ->
+  nth_error (c_parts C) p = Some (name, xs) -> fd_get name fd = Some T ->
+  nth_error xs i = Some x -> gfind (Z.of_nat i) T = Some n -> kept_key key ->
+  has_node m1 (phi C x) = true /\ node_get m1 (phi C x) key = aget key (na n).
+Proof. exact disconnected_copy_exact. Qed.
+
 (** non-vacuity *)
 Example C14_base_annotation_nonvacuous :
   let fo := fo_of_table [(S "1", Some (S "1.0")); (S "2", Some (S "2.0"))] in
@@ -271,3 +318,6 @@ Print Assumptions C14_bonding_keeps_annotation.
 Print Assumptions C14_sort_keeps_annotation.
 Print Assumptions C14_fragment_annotation_on_every_copy.
 Print Assumptions C14_hydrogens_do_not_overwrite.
+Print Assumptions C14_annotation_reaches_returned_graph.
+Print Assumptions C14_annotation_reaches_returned_graph_full.
+Print Assumptions C14_disconnected_copy_exact.
